@@ -907,6 +907,15 @@ pub fn supply(s: &Snap) -> BTreeMap<Denom, BigUint> {
     for c in s.coins.values() {
         *m.entry(c.coin_data.denom).or_insert_with(BigUint::zero) += BigUint::from(c.coin_data.value.0);
     }
+    // coin-tree entries under ids that no transaction of the history created (the registry cannot name them) are coins
+    // all the same when their value decodes as one: whoever holds the covenant can spend them
+    for (_, vhex) in s.unknown_coin_entries.iter() {
+        if let Ok(bytes) = hex::decode(vhex) {
+            if let Ok(c) = stdcode::deserialize::<melstructs::CoinDataHeight>(&bytes) {
+                *m.entry(c.coin_data.denom).or_insert_with(BigUint::zero) += BigUint::from(c.coin_data.value.0);
+            }
+        }
+    }
     for (k, p) in s.pools.iter() {
         // decoded pool keys are slot owners (the canonical key wherever a spelling shares its slot), so the
         // two sides hold k.left() and k.right()
